@@ -54,10 +54,12 @@ const (
 	SpPtrAlias                 // type APT = *d.T used where a pointer is written
 	SpDotImport                // import . "ex.com/m/d"; T   (importing packages of the use universe only)
 	SpBodyAlias                // type BMock = d.Mock declared INSIDE each function body that uses it (use universe only)
+	SpDeclAlias                // DMock / d.DMock: an alias the DECLARING package itself exports for its annotated type (use universe only)
+	SpDeclAliasDot             // the same alias named bare under a dot import of d (importing packages of the use universe only)
 	SpMixedAlias               // local aliases as under SpLocalAlias, but every second statement names the type directly: two spellings of one type in one file (use universe only)
 )
 
-var SpellNames = []string{"direct", "local-alias", "third-pkg-alias", "renamed-import", "paren", "ptr-alias", "dot-import", "body-alias", "mixed-alias"}
+var SpellNames = []string{"direct", "local-alias", "third-pkg-alias", "renamed-import", "paren", "ptr-alias", "dot-import", "body-alias", "decl-alias", "decl-alias-dot", "mixed-alias"}
 
 // EnclKind is the kind of top-level declaration that encloses a group of sites.
 type EnclKind int
@@ -363,7 +365,9 @@ func preludeD(w *lineWriter, m Mix) {
 	if m.Imm {
 		w.add("\t// @immutable")
 	}
-	if m.Ctor > 0 {
+	if m.Ctor >= 2 {
+		w.add("\t// @constructor NewT2, Alt") // Alt is a constructor of T as well: one function named by two types
+	} else if m.Ctor > 0 {
 		w.add("\t// @constructor NewT2")
 	}
 	w.add("\tT2 struct {")
